@@ -944,24 +944,25 @@ def r_rectify_rotation(cx):
                     pairs.append((cs[0][0], cs[0][2], cs[1][2], cs[0][4] or f.d["span"]))
         n_before = n
         for (bb, e, nn, span) in pairs:
-            used = None
-            for key, (S, C) in sincos.items():
-                if _mentions_term2(e, S) and _mentions_term2(e, C) and _mentions_term2(nn, S) and _mentions_term2(nn, C):
-                    used = (S, C)
-            if used is None:
+            # the angle of the rotation: the pair mentions the sine and cosine of several angles (gamma_c, and gamma_0
+            # inside u and v) - it is a rotation if it is one with respect to one of them
+            cands = [(S, C) for key, (S, C) in sorted(sincos.items()) if
+                     _mentions_term2(e, S) and _mentions_term2(e, C) and _mentions_term2(nn, S) and _mentions_term2(nn, C)]
+            if not cands:
                 continue
-            S, C = used
-            pe, pn = _fpoly(e, S, C), _fpoly(nn, S, C)
-            ce, cn = (_coef(pe, "C"), _coef(pe, "S")), (_coef(pn, "C"), _coef(pn, "S"))
             n += 1
             ok = False
             why = "the expressions are not linear in sin/cos of the rectification angle"
-            if all(x is not None for x in ce + cn):
-                eC, eS, nC, nS = ce[0][0], ce[1][0], cn[0][0], cn[1][0]
-                dot = eC * nC + eS * nS
-                norm = (eC * eC + eS * eS) - (nC * nC + nS * nS)
-                ok = dot.is_zero() and norm.is_zero() and not (eC.is_zero() and eS.is_zero())
-                why = "its rows are not orthogonal / of equal length (a shear, not a rotation)"
+            for S, C in cands:
+                pe, pn = _fpoly(e, S, C), _fpoly(nn, S, C)
+                ce, cn = (_coef(pe, "C"), _coef(pe, "S")), (_coef(pn, "C"), _coef(pn, "S"))
+                if all(x is not None for x in ce + cn):
+                    eC, eS, nC, nS = ce[0][0], ce[1][0], cn[0][0], cn[1][0]
+                    dot = eC * nC + eS * nS
+                    norm = (eC * eC + eS * eS) - (nC * nC + nS * nS)
+                    if dot.is_zero() and norm.is_zero() and not (eC.is_zero() and eS.is_zero()):
+                        ok = True
+                    why = "its rows are not orthogonal / of equal length (a shear, not a rotation)"
             cx.ob("R-RECTIFY-ROTATION", "%s/pair%d" % (fn, n - 1), ok,
                   "%s: the step between skew and rectified coordinates is a rotation through gamma_c" % fn if ok else
                   "%s: the step between skew (u, v) and rectified coordinates is not a rotation: %s" % (fn, why),
